@@ -243,16 +243,22 @@ def run(cx):
                     inst.violation(b.path, "CRC append", "%s stores the CRC as %s; siblings store CRC(buf[0..len-4]) big-endian at len-4..len-1" % (w, ws[:4]))
         rb = R.body(FR + "read")
         ok = False
-        for bb in sorted(rb.reachable):
-            t = rb.term(bb)
-            if t["k"] == "switch":
-                s = show(rb.operand_expr(t["op"]))
-                if "crc::compute" in s:
-                    want = "ne(bitor(bitor(bitor(shl(cast<u32>(arg1[sub([T]::len(arg1),3)]),16),shl(cast<u32>(arg1[sub([T]::len(arg1),4)]),24)),shl(cast<u32>(arg1[sub([T]::len(arg1),2)]),8)),cast<u32>(arg1[sub([T]::len(arg1),1)])),crc::compute(arg1[Range{0,sub([T]::len(arg1),4)}]))"
-                    ok = s == want
-                    inst.site(rb, Loc(bb, 0), "Frame::read CRC comparison")
-                    if not ok:
-                        inst.violation(rb.path, "CRC comparison", "Frame::read compares `%s`" % s[:200])
+        # the comparison, read off the branch literals (so `if crc != x { return None }` and `if !(crc == x) …` agree)
+        A = "bitor(bitor(bitor(shl(cast<u32>(arg1[sub([T]::len(arg1),3)]),16),shl(cast<u32>(arg1[sub([T]::len(arg1),4)]),24)),shl(cast<u32>(arg1[sub([T]::len(arg1),2)]),8)),cast<u32>(arg1[sub([T]::len(arg1),1)]))"
+        Bc = "crc::compute(arg1[Range{0,sub([T]::len(arg1),4)}])"
+        x, y = sorted((A, Bc))
+        want_lits = {"eq(%s,%s)" % (x, y), "ne(%s,%s)" % (x, y)}
+        rfa = cx.fa(rb)
+        seen_cmp = set()
+        for k_, lits in rfa.edge_lits.items():
+            for l in lits:
+                if "crc::compute" in l:
+                    seen_cmp.add(l)
+        if seen_cmp:
+            inst.site(rb, None, "Frame::read CRC comparison")
+            ok = seen_cmp <= want_lits and len(seen_cmp) == 2
+            if not ok:
+                inst.violation(rb.path, "CRC comparison", "Frame::read compares `%s`" % sorted(seen_cmp)[0][:200])
         obligations += 1
         if not ok:
             inst.violation(rb.path, "CRC comparison", "Frame::read does not compare the recomputed CRC with the last four bytes big-endian")
